@@ -8,6 +8,7 @@ import hashlib
 import itertools
 import logging
 import os
+import signal
 import random
 import sys
 import traceback
@@ -204,6 +205,15 @@ class Sim:
                         break
             except BaseException:  # pylint: disable=broad-except
                 break
+        # Tasks that would not finish (only ever seen on a broken SDK) are kept alive for the rest of the process:
+        # if they were dropped, the garbage collector would close() their coroutines later, outside any event loop,
+        # where e.g. an actor's restart loop turns every "no running event loop" error into another restart - a
+        # busy loop inside gc.collect() that no step cap can bound.  Processes end with os._exit (runner), so the
+        # finalisers never run.
+        left = [t for t in asyncio.all_tasks(loop) if not t.done()]
+        if left:
+            _LEAKED.append((left, [t.get_coro() for t in left], loop))
+            self.count("teardown_leaked_tasks", len(left))
         try:
             loop.close()
         except Exception:  # pylint: disable=broad-except
@@ -346,6 +356,17 @@ class Sim:
         return h.hexdigest()[:24]
 
 
+_LEAKED: list[Any] = []
+
+
+class RunWallTimeout(BaseException):
+    """Raised by the per-run watchdog (SIGALRM) when one run takes absurdly long in real time."""
+
+
+def _alarm(signum: int, frame: Any) -> None:
+    raise RunWallTimeout("run exceeded its wall-clock budget")
+
+
 def execute(scenario: Callable[[Sim], None], ch: Chooser) -> dict[str, Any]:
     """Run one scenario under one chooser and return a plain-dict result."""
     res: dict[str, Any] = {"status": "ok"}
@@ -353,6 +374,13 @@ def execute(scenario: Callable[[Sim], None], ch: Chooser) -> dict[str, Any]:
     # EPOCH phase is refined by scenarios that care (resampler); here only coarse variation
     epoch = BASE_EPOCH + timedelta(seconds=[0, 17, 3601, 86399][epoch_off])
     sim = Sim(ch, epoch=epoch)
+    # watchdog: step caps bound the simulated work of a run, not a busy loop inside one callback or finaliser
+    wall_cap = float(os.environ.get("VERIF_RUN_WALL_CAP", "60"))
+    try:
+        old_handler = signal.signal(signal.SIGALRM, _alarm)
+        signal.setitimer(signal.ITIMER_REAL, wall_cap)
+    except ValueError:      # not in the main thread
+        old_handler = None
     try:
         with sim:
             try:
@@ -387,6 +415,10 @@ def execute(scenario: Callable[[Sim], None], ch: Chooser) -> dict[str, Any]:
         if res.get("status") == "ok":
             res.update(status="harness_error", error=f"teardown {type(e).__name__}: {e}",
                        tb=traceback.format_exc()[-3000:])
+    finally:
+        if old_handler is not None:
+            signal.setitimer(signal.ITIMER_REAL, 0)
+            signal.signal(signal.SIGALRM, old_handler)
     res["tape"] = [list(x) for x in ch.tape]
     return res
 
